@@ -103,8 +103,70 @@ func c04FailSites(cfg Config, res *Result, rng *RNG) {
 	}
 }
 
+type c04Ptr struct{ Name string }
+
+func (p *c04Ptr) Tag() string  { return "ptr-" + p.Name }
+func (p c04Ptr) Plain() string { return "val-" + p.Name }
+
+// c04Absolute: histories whose every result is known by construction, so that state kept anywhere in
+// the process (not only in the compiled template) shows: a fresh compile in the same process would
+// share such state and agree with the wrong answer
+func c04Absolute(cfg Config, res *Result, rng *RNG) {
+	type step struct {
+		ctx  pongo2.Context
+		want string
+	}
+	type hist struct {
+		name  string
+		files map[string]string
+		entry string
+		steps []step
+	}
+	inherit := map[string]string{
+		"base.tpl":   "<{% block c %}base{% endblock %}|{% block d %}d0{% endblock %}>",
+		"page.tpl":   `{% extends "base.tpl" %}{% block c %}page[{% include other %}]{% endblock %}`,
+		"teaser.tpl": `{% extends "base.tpl" %}{% block c %}teaser {{ n }}{% endblock %}{% block d %}d-teaser{% endblock %}`,
+		"plain.tpl":  "plain {{ n }}",
+	}
+	hs := []hist{
+		{"a page whose block lazily includes a sibling page of the same layout", inherit, "page.tpl", []step{
+			{pongo2.Context{"other": "teaser.tpl", "n": 1}, "<page[<teaser 1|d-teaser>]|d0>"},
+			{pongo2.Context{"other": "teaser.tpl", "n": 1}, "<page[<teaser 1|d-teaser>]|d0>"},
+			{pongo2.Context{"other": "plain.tpl", "n": 2}, "<page[plain 2]|d0>"},
+			{pongo2.Context{"other": "teaser.tpl", "n": 3}, "<page[<teaser 3|d-teaser>]|d0>"}}},
+		{"a method of the pointer type, asked of a value and of a pointer in turn", map[string]string{"m.tpl": "{{ x.Tag }}/{{ x.Plain }}"}, "m.tpl", []step{
+			{pongo2.Context{"x": &c04Ptr{"ann"}}, "ptr-ann/val-ann"},
+			{pongo2.Context{"x": c04Ptr{"bob"}}, "/val-bob"},
+			{pongo2.Context{"x": &c04Ptr{"ann"}}, "ptr-ann/val-ann"},
+			{pongo2.Context{"x": c04Ptr{"bob"}}, "/val-bob"},
+			{pongo2.Context{"x": &c04Ptr{"cy"}}, "ptr-cy/val-cy"}}},
+	}
+	for _, h := range hs {
+		for _, debug := range []bool{false, true} {
+			ml := &memLoader{files: h.files, id: "0"}
+			set := pongo2.NewSet("abs", ml)
+			set.Debug = debug
+			tpl, err := set.FromFile(h.entry)
+			res.Cases++
+			res.DistinctNontrivial++
+			if err != nil {
+				res.add(Finding{Kind: "oracle", Proj: "history", Sig: "c04-absolute-history", Case: h.name, Impl: "compile: " + err.Error(), Model: "compiles"})
+				continue
+			}
+			for j, st := range h.steps {
+				got := execOnce(tpl, st.ctx)
+				if got.err != "" || got.pan != "" || got.out != st.want {
+					res.add(Finding{Kind: "oracle", Proj: "history", Sig: "c04-absolute-history", Case: fmt.Sprintf("%s: files=%q entry=%s debug=%v, execution #%d with %v", h.name, h.files, h.entry, debug, j+1, st.ctx), Impl: got.String(), Model: "ok " + hxb(st.want)})
+					break
+				}
+			}
+		}
+	}
+}
+
 func suiteC04(cfg Config, res *Result) {
 	defer c04FailSites(cfg, res, NewRNG(cfg.Seed^0xfa11))
+	defer c04Absolute(cfg, res, NewRNG(cfg.Seed^0xab5))
 	res.Rule = "failing executions: for every registered filter and every argument shape that makes it fail, a template with two such sites on different lines chosen by the context, executed 4 times: each error names the site that failed in that execution; one compiled template executed n = 2..5 times with a mix of contexts (equal and different, some failing: invalid key, division by zero via the context), for grammar-generated programs over every modelled tag plus programs focused on cycle / ifchanged / whitespace options / macros / include, under all four TrimBlocks x LStripBlocks settings (also toggled between executions); direct oracle: every result equals the first render of a freshly compiled copy with the same context and options; non-trivial = history containing two equal contexts; distinct by (program, history)"
 	n := 2500
 	if cfg.Thorough() {
